@@ -216,6 +216,26 @@ def runWith (f : State → Op → Option (State × List Ev)) : State → List Op
       | none => none
       | some (s'', es) => some (s'', e ++ es)
 
+/-- several atomic blocks issued in ONE turn of the event loop (e.g. a load completion is delivered and new lookups are issued
+before the loop runs again, so before any done-callback of the finished load task could run): asyncio runs what was scheduled in
+the order it was scheduled, so the turn is the sequence of the blocks.  A caller that was still suspended when the turn began
+(`s0`) cannot issue a lookup in it (`mayIssue`). -/
+def mayIssue (s0 : State) : Op → Bool
+  | .lookup c _ => (awaited c s0.inflight).isNone
+  | _ => true
+
+/-- one turn of the event loop: the blocks in the order they were issued -/
+def turn (cfg : Config) (s0 : State) : State → List Op → Option (State × List Ev)
+  | s, [] => some (s, [])
+  | s, op :: ops =>
+    if !mayIssue s0 op then none else
+    match step cfg s op with
+    | none => none
+    | some (s', e) =>
+      match turn cfg s0 s' ops with
+      | none => none
+      | some (s'', es) => some (s'', e ++ es)
+
 def run (cfg : Config) : List Op → Option (State × List Ev) := runWith (step cfg) init
 def runOld (cfg : Config) : List Op → Option (State × List Ev) := runWith (stepOld cfg) init
 
